@@ -384,6 +384,42 @@ impl U {
         Some(diffs.join("; "))
     }
 
+    /// Every live ledger entry (except authorisation nonces) as base64 XDR: (key, entry, live-until).
+    pub fn dump_entries(&self) -> Vec<(String, String, Option<u32>)> {
+        use soroban_sdk::xdr::{Limits, WriteXdr};
+        self.snap()
+            .iter()
+            .map(|(k, e, l)| (k.to_xdr_base64(Limits::none()).unwrap(), e.to_xdr_base64(Limits::none()).unwrap(), *l))
+            .collect()
+    }
+
+    /// Replace the whole ledger by the given entries (the contracts registered in this Env keep
+    /// running their code; what they find in storage is what the entries say) and set the clock.
+    pub fn load_entries(&mut self, entries: &[(String, String, Option<u32>)], seq: u32, time: u64) -> Result<(), String> {
+        use soroban_sdk::xdr::{Limits, ReadXdr};
+        let budget = self.env.host().budget_cloned();
+        let mut v: Vec<(Rc<LedgerKey>, Option<(Rc<LedgerEntry>, Option<u32>)>)> = Vec::new();
+        for (k, e, l) in entries {
+            let k = LedgerKey::from_xdr_base64(k, Limits::none()).map_err(|e| format!("{:?}", e))?;
+            let e = LedgerEntry::from_xdr_base64(e, Limits::none()).map_err(|e| format!("{:?}", e))?;
+            v.push((Rc::new(k), Some((Rc::new(e), *l))));
+        }
+        v.sort_by(|a, b| a.0.cmp(&b.0));
+        let m = StorageMap::from_map(v, &budget).map_err(|e| format!("{:?}", e))?;
+        self.env
+            .host()
+            .with_mut_storage(move |s| {
+                s.map = m;
+                Ok(())
+            })
+            .map_err(|e| format!("{:?}", e))?;
+        self.set_seq(seq);
+        self.set_time(time);
+        self.advanced = 0;
+        self.skip_events();
+        Ok(())
+    }
+
     // ------------------------------------------------------------ events
 
     fn host_events(&self) -> Vec<soroban_env_host::events::HostEvent> {
